@@ -2,7 +2,7 @@
 transfer (C02, C18)."""
 import re
 from vf.core import Unit
-from vf.rustcut import SourceFile, Undecided, Cut
+from vf.rustcut import SourceFile, Undecided, Cut, match_brace
 from . import common
 
 NAME = "U-opt"
@@ -58,6 +58,12 @@ pub open spec fn both_sound(a: Option<&AsmLine>, b: Option<&AsmLine>, acc: Optio
     (mm(a, AsmMnemonic::PLA) && mm(b, AsmMnemonic::PHA))
     || cmp_fold(acc, AsmMnemonic::CMP, a, b) || cmp_fold(x, AsmMnemonic::CPX, a, b) || cmp_fold(y, AsmMnemonic::CPY, a, b)
 }
+// a piece of knowledge k (operand text a register is believed to hold) survives instruction i: i changes neither an index register the text depends on
+// nor the memory cell it names (a store of the same register to that cell, `same_store`, keeps it true)
+pub open spec fn keeps(i: Option<&AsmLine>, k: Option<String>, same_store: AsmMnemonic) -> bool {
+    k is Some ==> (!(writes_x(ins(i).mnemonic) && ew_idx(k->Some_0@, 'X')) && !(writes_y(ins(i).mnemonic) && ew_idx(k->Some_0@, 'Y'))
+                   && !(writes_mem(ins(i).mnemonic, ins(i).dasm_operand@) && ins(i).mnemonic != same_store && k->Some_0@ == ins(i).dasm_operand@))
+}
 pub open spec fn is_compare(m: AsmMnemonic) -> bool { m == AsmMnemonic::CMP || m == AsmMnemonic::CPX || m == AsmMnemonic::CPY }
 
 // ---- oracle for the knowledge transfer: what an instruction writes (A-isa) -------------------------------------------------------
@@ -100,7 +106,8 @@ def r15(c):
 
 def build(repo):
     u = Unit(NAME, TOOL, PROPS,
-             ["src/assemble.rs: AssemblyCode::optimize -- block 'Analyze pairs of instructions' (R8)", "src/assemble.rs: AssemblyCode::optimize -- block 'Analyze the second instruction to check for a load' (R8)"],
+             ["src/assemble.rs: AssemblyCode::optimize -- block 'Analyze pairs of instructions' (R8)", "src/assemble.rs: AssemblyCode::optimize -- block 'Analyze the second instruction to check for a load' (R8)",
+              "src/assemble.rs: AssemblyCode::optimize -- resynchronisation after remove_both (R8)"],
              assumptions=["A-isa write sets and the list of sound adjacent-pair eliminations are the oracle (spec functions of this unit)",
                           "A-noalias: distinct operand texts denote distinct cells (arr+1 vs arr,X aliasing is outside the contract); A-immtext: equal immediates have equal text",
                           "loop invariant of optimize() assumed as precondition: `first` is an Instruction and `second` the next Instruction (established by code outside the two blocks)",
@@ -121,6 +128,25 @@ def build(repo):
     cuts += [a, b]
     r15(a)
     r15(b)
+    # block C: resynchronisation after `remove_both`: from the end of the loop that skips to the next instruction up to `second = iter.next();`
+    rb = re.search(r"\} else if remove_both \{", f.masked[s0:cb0])
+    if not rb:
+        raise Undecided("optimize(): `else if remove_both {` not found")
+    rb0 = s0 + rb.end() - 1
+    rb1 = match_brace(f.masked, rb0, "{", "}")
+    lp = re.search(r"\bloop \{", f.masked[rb0:rb1])
+    if not lp:
+        raise Undecided("optimize(): the skip loop of the remove_both branch was not found")
+    lp0 = rb0 + lp.end() - 1
+    lp1 = match_brace(f.masked, lp0, "{", "}")
+    tail = re.search(r"second = iter\.next\(\);", f.masked[lp1:rb1])
+    if not tail:
+        raise Undecided("optimize(): `second = iter.next();` not found at the end of the remove_both branch")
+    nl = f.text.index("\n", lp1) + 1
+    c = f.cut_span(nl, lp1 + tail.start(), "optimize(): resynchronisation after remove_both (between the skip loop and `second = iter.next();`, R8)")
+    # what the skip loop itself does to the knowledge (a reset inside it is path dependent and not taken into account: the block must be sound on its own)
+    cuts.append(c)
+    r15(c)
     # The JMP-to-next-label rule removes the JMP and steps over the label WITHOUT the knowledge reset every other label crossing performs: what is
     # known after a JMP therefore reaches a join point.  Unless the rule's own block resets the three registers, block B must forget them at JMP.
     j = f.block(r"^\s*// Remove JMP to the following label", r"^\s*// Make sure second points also to an instruction", s0, cb0, desc="optimize(): 'Remove JMP to the following label' (scanned only)")
@@ -183,7 +209,24 @@ pub fn knowledge_transfer(second: Option<&AsmLine>, iter: &mut Peek, accumulator
     (accumulator, x_register, y_register, flags, remove_second)
 }
 """ % {"blk": b.text, "jmp_clause": jmp_clause}
-    text = common.PRELUDE + common.header_comment(NAME, cuts) + "verus! {\n" + types + fl.text + "\n" + SPECS + pair + xfer + common.CANARY + "\n} // verus!\n"
+    resync = """
+// R8: block C of optimize(), verbatim: after both instructions of a pair were removed, `first` is the next instruction of the flow.  It has NOT been
+// through block B, so whatever is kept of the knowledge must already account for what `first` does (A-isa), exactly as block B would.
+pub fn resync_after_remove_both(first: Option<&AsmLine>, accumulator: Option<String>, x_register: Option<String>, y_register: Option<String>) -> (r: (Option<String>, Option<String>, Option<String>))
+    requires is_ins(first),
+    ensures
+        r.0 is None || (mm(first, AsmMnemonic::LDA) && known(r.0, ins(first).dasm_operand@)) || (r.0 == accumulator && keeps(first, r.0, AsmMnemonic::STA) && !writes_a(ins(first).mnemonic, ins(first).dasm_operand@)), //@ C02:resync-a-sound
+        r.1 is None || (mm(first, AsmMnemonic::LDX) && known(r.1, ins(first).dasm_operand@)) || (r.1 == x_register && keeps(first, r.1, AsmMnemonic::STX) && !writes_x(ins(first).mnemonic)), //@ C02:resync-x-sound
+        r.2 is None || (mm(first, AsmMnemonic::LDY) && known(r.2, ins(first).dasm_operand@)) || (r.2 == y_register && keeps(first, r.2, AsmMnemonic::STY) && !writes_y(ins(first).mnemonic)), //@ C02:resync-y-sound
+{
+    let mut accumulator = accumulator;
+    let mut x_register = x_register;
+    let mut y_register = y_register;
+%s
+    (accumulator, x_register, y_register)
+}
+""" % c.text
+    text = common.PRELUDE + common.header_comment(NAME, cuts) + "verus! {\n" + types + fl.text + "\n" + SPECS + pair + xfer + resync + common.CANARY + "\n} // verus!\n"
     u.text[None] = text
     u.optional = ["O-C02-xfer-jump-forgets"]      # demanded only while the JMP-to-next-label rule does not reset the registers itself
     u.rewrites = common.collect_rewrites(cuts)
